@@ -71,6 +71,11 @@ func doRequest(request *http.Request, executor failsafe.Executor[*http.Response]
 	}
 
 	return executor.GetWithExecution(func(exec failsafe.Execution[*http.Response]) (*http.Response, error) {
+		// Close the previous attempt's response, if any, since it is being retried and will not be returned
+		if lastResp := exec.LastResult(); lastResp != nil && lastResp.Body != nil {
+			_ = lastResp.Body.Close()
+		}
+
 		ctx, cancel := util.MergeContexts(request.Context(), exec.Context())
 		defer cancel(nil)
 		req := request.WithContext(ctx)
